@@ -188,7 +188,7 @@ def lean_check(prop_id):
     if rc != 0:
         res["broken"].append("audit file failed to elaborate: " + out[-2000:])
     # parse "'name' depends on axioms: [a, b]" / "'name' does not depend on any axioms"
-    for m in re.finditer(r"'([^']+)' (depends on axioms: \[([^\]]*)\]|does not depend on any axioms)", out):
+    for m in re.finditer(r"^'(.+?)' (depends on axioms: \[([^\]]*)\]|does not depend on any axioms)", out, re.M):
         name = m.group(1)
         axioms = [a.strip() for a in (m.group(3) or "").replace("\n", " ").split(",") if a.strip()]
         res["theorems"].append((name, axioms))
